@@ -490,3 +490,164 @@ def run_batch(jobs):
         r["wall"] = round(time.time() - t0, 3)
         res.append(r)
     return res
+
+
+# ----------------------------------------------------------------------------- markup layouts of the properties
+def _xesc(s, quote=None):
+    s = s.replace("&", "&amp;").replace("<", "&lt;").replace(">", "&gt;")
+    if quote == '"':
+        s = s.replace('"', "&quot;")
+    elif quote == "'":
+        s = s.replace("'", "&#39;")
+    return s
+
+
+def html_variant(doc, layout, rng) -> bytes:
+    """The flow document as HTML5 with the head laid out as the abstract layout says (own renderer for the head;
+    the body comes from the shared writer's body_html)."""
+    from .writers.web import body_html
+    p = doc.get("props") or {}
+    up = layout["tagcase"] == "upper"
+
+    def tag(t):
+        return t.upper() if up else t
+
+    def case(n):
+        return {"lower": n, "title": n.title(), "upper": n.upper()}[layout["namecase"]]
+    metas = [f'<{tag("meta")} charset="utf-8">']
+    for k in ("author", "description", "keywords"):
+        if p.get(k) is None:
+            continue
+        q = rng.choice(['"', "'"])
+        a_name = f'{tag("name")}={q}{case(k)}{q}'
+        a_cont = f'{tag("content")}={q}{_xesc(p[k], q)}{q}'
+        a = f"{a_name} {a_cont}" if layout["attr"] == "name-first" else f"{a_cont} {a_name}"
+        metas.append(f'<{tag("meta")} {a}>')
+    title = f'<{tag("title")}>{_xesc(p["title"])}</{tag("title")}>' if p.get("title") is not None else ""
+    # the charset declaration stays first; the title goes before or after the named meta elements
+    head = metas[0] + (title + "".join(metas[1:]) if layout["titlepos"] == "first" else "".join(metas[1:]) + title)
+    out = "<!DOCTYPE html>"
+    if layout["html"]:
+        out += f'<{tag("html")}>'
+    out += (f'<{tag("head")}>{head}</{tag("head")}>' if layout["head"] else head)
+    body = body_html(doc.get("blocks", []))
+    out += (f'<{tag("body")}>{body}</{tag("body")}>' if layout["body"] else body)
+    if layout["html"]:
+        out += f'</{tag("html")}>'
+    return out.encode("utf-8")
+
+
+def mhtml_wrap(html: bytes, rng) -> bytes:
+    import base64
+    import quopri
+    enc = rng.choice(["quoted-printable", "base64"])
+    payload = base64.encodebytes(html) if enc == "base64" else quopri.encodestring(html)
+    b = b"----=_NextPart_000_C04"
+    return (b"From: <Saved by test>\r\nSubject: page\r\nMIME-Version: 1.0\r\n"
+            b'Content-Type: multipart/related; type="text/html"; boundary="' + b + b'"\r\n\r\n'
+            b"--" + b + b'\r\nContent-Type: text/html; charset="utf-8"\r\n'
+            b"Content-Transfer-Encoding: " + enc.encode() + b"\r\nContent-Location: http://example.invalid/\r\n\r\n"
+            + payload + b"\r\n--" + b + b"--\r\n")
+
+
+def _rezip(pkg: bytes, edit) -> bytes:
+    """Re-pack a ZIP package with edit(name, bytes) -> bytes applied to every member (order and methods kept)."""
+    import zipfile
+    zin = zipfile.ZipFile(io.BytesIO(pkg))
+    buf = io.BytesIO()
+    with zipfile.ZipFile(buf, "w") as zout:
+        for i in zin.infolist():
+            zout.writestr(i, edit(i.filename, zin.read(i)), compress_type=i.compress_type)
+    return buf.getvalue()
+
+
+def epub_variant(pkg: bytes, props, layout) -> bytes:
+    """Replace the package document of the shared writer's EPUB by one laid out as the abstract layout says."""
+    import re
+    pre = "opf:" if layout["prefix"] == "opf" else ""
+
+    def dc(tagname, key, extra=""):
+        v = props.get(key)
+        if v is None:
+            return ""
+        return f"<dc:{tagname}{extra if layout['attrs'] else ''}>{_xesc(v)}</dc:{tagname}>"
+
+    def edit(name, data):
+        if not name.endswith(".opf"):
+            return data
+        old = data.decode("utf-8")
+        man = re.search(r"<manifest>(.*?)</manifest>", old, re.S).group(1)
+        spine = re.search(r"<spine>(.*?)</spine>", old, re.S).group(1)
+        if pre:
+            man = man.replace("<item ", "<opf:item ")
+            spine = spine.replace("<itemref ", "<opf:itemref ")
+        title = dc("title", "title", ' id="t1" xml:lang="en"')
+        rest = (dc("creator", "author", ' id="cr" opf:role="aut" opf:file-as="x"') + dc("subject", "subject", ' xml:lang="en"')
+                + dc("description", "description", ' id="d1"'))
+        fixed = '<dc:identifier id="uid">urn:uuid:0</dc:identifier><dc:language>en</dc:language>'
+        meta = fixed + (title + rest if layout["titlepos"] == "first" else rest + title)
+        ns = ('xmlns:opf="http://www.idpf.org/2007/opf"' if pre
+              else 'xmlns="http://www.idpf.org/2007/opf" xmlns:opf="http://www.idpf.org/2007/opf"')
+        return (f'<?xml version="1.0" encoding="utf-8"?><{pre}package {ns} version="{layout["version"]}" '
+                f'unique-identifier="uid"><{pre}metadata xmlns:dc="http://purl.org/dc/elements/1.1/">{meta}</{pre}metadata>'
+                f"<{pre}manifest>{man}</{pre}manifest><{pre}spine>{spine}</{pre}spine></{pre}package>").encode("utf-8")
+    return _rezip(pkg, edit)
+
+
+# ----------------------------------------------------------------------------- alternative texts of pictures
+ALT_TEXT = {"name": "zqname Bild 1", "title": "zqtitle Titel é & co", "desc": "zqdesc Beschreibung <x> ü"}
+
+
+def _alt_value(kind, which):
+    return {"empty": "", "blank": "  ", "text": ALT_TEXT[which]}.get(kind)
+
+
+def alt_variant(pkg: bytes, fmt, alt) -> bytes:
+    """Post-process the package of the shared writer: give every picture the name / title / description the
+    abstract case says (ODF: draw:name attribute, svg:title / svg:desc children; OOXML: name / title / descr
+    attributes of docPr and cNvPr)."""
+    import re
+    name, title, desc = (_alt_value(alt[k], w) for k, w in (("name", "name"), ("title", "title"), ("desc", "desc")))
+    count = [0]
+
+    def odf_frame(m):
+        count[0] += 1
+        open_tag = re.sub(r'\sdraw:name="[^"]*"', "", m.group(1))
+        if name is not None:
+            open_tag = open_tag[:-1] + f' draw:name="{_xesc(name, chr(34))}">'
+        kids = ""
+        if title is not None:
+            kids += f"<svg:title>{_xesc(title)}</svg:title>" if title != "" else "<svg:title/>"
+        if desc is not None:
+            kids += f"<svg:desc>{_xesc(desc)}</svg:desc>" if desc != "" else "<svg:desc/>"
+        return open_tag + m.group(2) + kids + "</draw:frame>"
+
+    def ooxml_pr(m):
+        count[0] += 1
+        attrs = re.sub(r'\s(name|title|descr)="[^"]*"', "", m.group(2))
+        for k, v in (("name", name), ("descr", desc), ("title", title)):
+            if v is not None:
+                attrs += f' {k}="{_xesc(v, chr(34))}"'
+        return f"<{m.group(1)}{attrs}/>"
+
+    def edit(part, data):
+        if fmt in ("odt", "ods", "odp", "odg"):
+            if part != "content.xml":
+                return data
+            x = data.decode("utf-8")
+            x = re.sub(r"(<draw:frame\b[^>]*>)(<draw:image\b[^>]*/>)</draw:frame>", odf_frame, x)
+            return x.encode("utf-8")
+        if not part.endswith(".xml"):
+            return data
+        x = data.decode("utf-8")
+        if fmt == "docx" and part == "word/document.xml":
+            x = re.sub(r"<(wp:docPr|pic:cNvPr)\b([^>]*?)/>", ooxml_pr, x)
+        elif fmt == "pptx" and part.startswith("ppt/slides/slide"):
+            x = re.sub(r"(?<=<p:pic><p:nvPicPr>)<(p:cNvPr)\b([^>]*?)/>", ooxml_pr, x)
+        elif fmt == "xlsx" and "/drawings/" in part:
+            x = re.sub(r"(?<=<xdr:pic><xdr:nvPicPr>)<(xdr:cNvPr)\b([^>]*?)/>", ooxml_pr, x)
+        return x.encode("utf-8")
+    out = _rezip(pkg, edit)
+    if count[0] == 0:
+        raise ValueError(f"no picture element found in the {fmt} package (writer changed?)")
+    return out
